@@ -43,21 +43,55 @@ enum HOp {
     Delete(usize),
 }
 
+/// leaf values: mostly random, sometimes the default value, a repeated small constant or p-1
+fn val(rng: &mut impl rand::RngCore) -> Fr {
+    match rng.gen_range(0..8) {
+        0 => Fr::from(0u64),
+        1 => Fr::from(1u64),
+        2 => -Fr::from(1u64),
+        _ => rand_fr(rng),
+    }
+}
+
 fn history(seed: u64, n: usize) -> Vec<HOp> {
     let mut rng = rng_for(seed, "c17-history");
     let mut ops = vec![];
-    let mut mark = 0usize;
+    let mut mark;
     let pos = [0usize, 1, 2, 3, 7, 8, 255, 256, (1 << 19) - 1, 1 << 19, (1 << 20) - 2, (1 << 20) - 1];
-    for k in 0..n {
+    // a fixed prefix of corner cases every run goes through: explicit writes of the default value at never-used
+    // positions (above the leaf count) followed by appends, overwrite with the same value, delete then append
+    let v1 = rand_fr(&mut rng);
+    let v2 = rand_fr(&mut rng);
+    ops.extend([
+        HOp::Set(3, Fr::from(0u64)),
+        HOp::Append(v1),
+        HOp::Set(6, Fr::from(0u64)),
+        HOp::Append(v2),
+        HOp::Set(7, v2),
+        HOp::Set(7, v2),
+        HOp::Append(v1),
+        HOp::Delete(8),
+        HOp::Append(Fr::from(0u64)),
+        HOp::Append(v2),
+        HOp::Set(12, Fr::from(0u64)),
+        HOp::Delete(12),
+        HOp::Append(v1),
+    ]);
+    mark = 14;
+    for k in ops.len()..n.max(ops.len()) {
         let op = match rng.gen_range(0..10) {
             0..=3 => {
-                let i = if k % 3 == 0 { rng.gen_range(0..(1usize << 20)) } else { pos[rng.gen_range(0..pos.len())] };
+                let i = match k % 4 {
+                    0 => rng.gen_range(0..(1usize << 20)),
+                    1 => (mark + rng.gen_range(0..3)).min((1 << 20) - 1), // at / just above the leaf count
+                    _ => pos[rng.gen_range(0..pos.len())],
+                };
                 mark = mark.max(i + 1);
-                HOp::Set(i, rand_fr(&mut rng))
+                HOp::Set(i, val(&mut rng))
             }
             4..=6 if mark < (1 << 20) => {
                 mark += 1;
-                HOp::Append(rand_fr(&mut rng))
+                HOp::Append(val(&mut rng))
             }
             _ => {
                 // delete below the high-water mark only (behaviour above it is C06's subject)
@@ -338,7 +372,7 @@ pub fn run(rep: &mut Rep, args: &[String]) {
     let dir = arg(args, "--dir").unwrap_or_else(|| std::env::var("VH_RUN_DIR").unwrap_or_else(|_| ".".into()));
     let thorough = rep.thorough();
     let seed = rep.seed;
-    let n_ops = if thorough { 400 } else { 48 };
+    let n_ops = if thorough { 400 } else { 64 };
     let k_msgs = if thorough { 24 } else { 2 };
     let me = config_name();
     match phase.as_str() {
